@@ -154,6 +154,29 @@ pub fn forward_ref<S: Sc>(spec: &NetSpec, params: &[T<S>], input: &T<S>) -> Opti
     Some((x, kink))
 }
 
+/// true when some pre-activation leaves [-100, 100] (single precision: [-20, 20]): beyond that the exponentials of
+/// sigmoid / softmax and the quotients of their derivatives leave the range in which every term is representable
+/// (section 10, observation O1) - such inputs are outside "in-domain values"
+pub fn saturates(spec: &NetSpec, params: &[T<f64>], input: &T<f64>) -> bool {
+    // (the single-precision limit in both builds: which cases a check runs must not depend on the float width, or the
+    // f32 / f64 metadata logs of C19 no longer line up)
+    let lim = 20.0;
+    let offs = spec.param_offsets();
+    let mut x = input.clone();
+    for (i, l) in spec.layers.iter().enumerate() {
+        match layer_ref_n(l, &params[offs[i]..offs[i] + l.n_params()], &x) {
+            Some((pre, out)) => {
+                if !(pre.max_abs() <= lim) {
+                    return true;
+                }
+                x = out;
+            }
+            None => return true,
+        }
+    }
+    false
+}
+
 pub fn cost_ref<S: Sc>(ce: bool, out: &T<S>, target: &T<S>) -> Option<T<S>> {
     if ce {
         T::cross_entropy(out, target)
